@@ -72,7 +72,10 @@ def run(model, col, tier):
         lp9, rp9 = gp.args.args[0].arg, gp.args.args[1].arg
         import re as _re9
 
-        t = _re9.sub(rf"\b{_re9.escape(rp9)}\b", "right", _re9.sub(rf"\b{_re9.escape(lp9)}\b", "left", unparse(rv))) if {lp9, rp9} != {"left", "right"} else unparse(rv)
+        from ..sem import local_env as _le92, rtext as _rt92
+
+        rv_txt = _rt92(rv, {k_: v_ for k_, v_ in _le92(gp).items() if k_ not in (lp9, rp9)})  # single-assignment locals inlined
+        t = _re9.sub(rf"\b{_re9.escape(rp9)}\b", "right", _re9.sub(rf"\b{_re9.escape(lp9)}\b", "left", rv_txt)) if {lp9, rp9} != {"left", "right"} else rv_txt
         atoms = cond_atoms(evs)
         if "VectorType(" in t:
             good = "_GetCommonScalarType(left.GetComponentType(), right.GetComponentType())" in t and "left.GetComponentCount()" in t
@@ -338,11 +341,15 @@ def check_self_typed(model, col, rule):
 
 def check_literal_types(model, col, rule):
     """A literal's type is decided by how it is converted from the token text: int(..) -> Integer, float(..) -> Float."""
-    from ..grammar import PARSER as _PARSER
+    from ..grammar import PARSER as _PARSER, Grammar as _Grammar
 
     want = {"int": "Integer", "float": "Float"}
     n = 0
-    for c in ast.walk(model.file(_PARSER).tree):
+    # (through the grammar model: actions are read with the parser's private statement helpers in place)
+    seen_funcs = {}
+    for P in _Grammar(model).productions:
+        seen_funcs.setdefault(P.func.name, P.func)
+    for c in [x for f_ in seen_funcs.values() for x in ast.walk(f_)]:
         conv = (last_attr(c.args[0]) or "").lower() if isinstance(c, ast.Call) and last_attr(c) == "LiteralExpression" and len(c.args) == 2 and isinstance(c.args[0], ast.Call) else ""
         conv = "float" if "float" in conv else conv
         if conv in want:
